@@ -13,7 +13,7 @@ else:
     _p = _props[pid]
     prop = f"{pid} - {_p.get('title', '')}\n\n{_p.get('statement', _p.get('description', ''))}\n"
 earlier = ""
-if wave == "3":
+if wave in ("3", "4"):
     # one-line descriptions of the changes earlier authors already produced for this property (their own words; nothing of /verif's checks)
     lines = []
     for d in sorted(glob.glob(f"/verif/seeded/{pid}-*/")):
@@ -59,7 +59,14 @@ Mutant b should be an ARITHMETIC / SEMANTIC slip in a helper that the anchored c
 layer of the library (inferno/functional, inferno/core/math, inferno/core/tensor, inferno/_internal, a mixin, a base class),
 and it should manifest only for one particular element of the property's 'Quantified over' domain that is not the default
 (a particular class, mode, option, dtype, shape or boundary value listed there).
-""" + earlier if wave == "3" else "") + f"""
+""" + earlier if wave == "3" else "") + ("""Mutant a should be an OPTION slip: pick a keyword argument, mode, flag or class variant that the property's 'Quantified over'
+line mentions (or that the public API of the anchored files offers) and that is NOT the default, and break the library only on
+that path - an option ignored on one of two branches, applied twice, read from the wrong attribute, a wrong default propagated
+to a sub-component, `<` for `<=` at the option's boundary value, the wrong one of two sibling dimensions (-1 / -2), and so on.
+Mutant b should be a SEQUENCE slip: a bug that needs at least THREE public API calls in a particular order to manifest
+(configure -> run -> reconfigure -> run; register -> deregister -> register -> use; write -> resize -> read; train -> eval ->
+train; clear in the middle of a run ...), where every shorter prefix and every pair of those calls alone still behaves correctly.
+""" + earlier if wave == "4" else "") + f"""
 For EACH mutant (a, b):
  1. Make the change in the worktree (start each from a clean tree: `git -C {wt} checkout -- .`).
  2. Run the existing test suite and make sure it still passes:
